@@ -413,6 +413,8 @@ def compute_taint(an):
             parent[an.ser.id_of(d)] = fi
     taint = {}
     wsets = {}
+    seeds = {}
+    an.taint_seeds = seeds
     for fi in order:
         S = {}
 
@@ -464,6 +466,7 @@ def compute_taint(an):
                     for x in bound_here:
                         if x not in local:
                             add(x, ['captured_var_rebound_by_calling_statement'])
+        seeds[fi.def_id] = sorted(S)
         changed = True
         news_cache = {}
         while changed:
